@@ -1,6 +1,8 @@
 import PlzVerif.Lemmas.AspFreeze
 import PlzVerif.Lemmas.AspReadOnly
 import PlzVerif.Model.AspGenerated
+import PlzVerif.Model.AspConfig
+import PlzVerif.Generated.C17
 /-!
 C17  Packages cannot observe or mutate each other's values.
 
@@ -177,5 +179,54 @@ example : frozenDeep Ffixed = true := by decide +kernel
 
 /-- Today's `Freeze` does not produce a deep-frozen value even for `[[1, 2]]`. -/
 theorem C17_freeze_today_not_deep : frozenDeep F = false := by decide +kernel
+
+/-! ### CONFIG: base + per-scope overlay, merged in from subincluded files
+
+`Model/AspConfig.lean` is the heap of overlay maps with the allocation and write sites of `pyConfig` (`Merge`,
+`IndexAssign`, the file's own scope).  The regenerated facts say who owns a map: every assignment to a field
+`.overlay` stores a fresh map (`make` / literal), `Merge` in particular (`mergeDest`), and `pyConfig` has no further
+field (such as a copy-on-write flag). -/
+
+open PlzVerif.AspConfig in
+/-- the variant of the model that the code is: `Merge` adopts the argument's map iff the extractor saw an alias -/
+def configAlias : Bool := Generated.C17.mergeDest == "alias"
+
+/-- Side condition on the regenerated CONFIG facts. -/
+def ConfigFactsOK : Bool :=
+  Generated.C17.configFields == ["base", "overlay"] &&
+  Generated.C17.overlayAssigns.all (fun a => a.2 == "make" || a.2 == "literal") &&
+  Generated.C17.mergeDest == "make" && !configAlias
+
+theorem C17_config_facts_ok : ConfigFactsOK = true := by decide
+
+open PlzVerif.AspConfig in
+/-- **CONFIG non-interference** (full, for the CONFIG part of the package state): for every set of subincludable
+    files and every sequence of package evaluations in one interpreter — any order, any subinclude sets, any CONFIG
+    writes — the CONFIG each package observes is `spec` of its own subincludes and writes, a function that does not
+    mention the other packages.  By induction over the evaluation sequence (`runAll_noninterference`), with the
+    invariant that cached overlay cells are never written. -/
+theorem C17_config_noninterference (files : Files) (pkgs : List (List Act)) :
+    runAll configAlias files {} pkgs = pkgs.map (spec files) := by
+  have h : configAlias = false := by decide
+  rw [h]
+  exact runAll_noninterference files pkgs {} (inv_init files)
+
+open PlzVerif.AspConfig in
+/-- … hence a package sees the same CONFIG alone, after another package and before it. -/
+theorem C17_config_order_irrelevant (files : Files) (p q : List Act) :
+    (runAll configAlias files {} [p, q])[1]? = (runAll configAlias files {} [q])[0]? ∧
+    (runAll configAlias files {} [q, p])[0]? = (runAll configAlias files {} [q])[0]? := by
+  have h : configAlias = false := by decide
+  rw [h]; exact order_irrelevant files p q
+
+open PlzVerif.AspConfig in
+/-- **The fact is necessary**: if the first `Merge` adopts the cached overlay of the file by reference, a package
+    that subincludes `a` and `b` writes `b`'s entries into `a`'s cached overlay, and a package that subincludes only
+    `a` sees `KB` or not depending on whether the first one ran before it. -/
+theorem C17_config_alias_interferes :
+    runAll true wFiles {} [wP1, wP2] = [[("KA", 1), ("KB", 2)], [("KA", 1), ("KB", 2)]] ∧
+    runAll true wFiles {} [wP2] = [[("KA", 1)]] ∧
+    runAll true wFiles {} [wP2, wP1] = [[("KA", 1)], [("KA", 1), ("KB", 2)]] ∧
+    runAll false wFiles {} [wP1, wP2] = [[("KA", 1), ("KB", 2)], [("KA", 1)]] := alias_interferes
 
 end PlzVerif.Props.C17
